@@ -332,7 +332,7 @@ def pool_owner(ctx, L, rule="R-POOL-OWNER"):
                         if table != "_snd_buffer":
                             ctx.violated(rule, fn, "22 %s called in the %s scan [%s]" % (name, table, "dest-specific" if "rts" in name else "broadcast"),
                                          "expiry of an inbound session releases a number of the stack's own originator pool", e.node)
-                        elif E is None or arg != sub(E, "session") or not any(x.kind == "del" and x.target == E for _, x in r.effects()):
+                        elif E is None or arg not in (sub(E, "session"), sub(("popped", E), "session")) or not any(x.kind == "del" and x.target == E for _, x in r.effects()):
                             ctx.violated(rule, fn, "22 %s in the send scan" % name, "released number %s is not that of a send session deleted on this path" % pretty(arg), e.node)
                         else:
                             ctx.holds(rule, "22 %s releases the deleted send session's own number (state %s)" % (name, _state_name(L, r)))
@@ -393,7 +393,7 @@ def pool_pair(ctx, L, rule="R-POOL-PAIR"):
         inst = "22 deletion in state %s returns the number" % st
         if L.calls(r, other):
             ctx.violated(rule, L.job, inst, "number is returned to the wrong pool (%s)" % other, L.calls(r, other)[0][1].node)
-        elif len(calls) != 1 or calls[0][1].value[2] != (sub(E, "session"),):
+        elif len(calls) != 1 or calls[0][1].value[2] not in ((sub(E, "session"),), (sub(("popped", E), "session"),)):
             ctx.violated(rule, L.job, inst, "send session is deleted without returning its session number to the pool: the number is lost for good",
                          [e for _, e in r.effects() if e.kind == "del"][0].node)
         else:
@@ -462,6 +462,19 @@ def wakeup_min(ctx, func, rule="R-WAKEUP-MIN", tag=""):
         ok = False
         if isinstance(v, ast.Call) and isinstance(v.func, ast.Name) and v.func.id == "min" and any(isinstance(x, ast.Name) and x.id == var for x in v.args):
             ok = True
+        if isinstance(v, ast.IfExp) and isinstance(v.test, ast.Compare) and len(v.test.ops) == 1:
+            # wake = d if wake > d else wake   /   wake = wake if wake <= d else d   (and the mirrored comparisons)
+            l, r_, op = v.test.left, v.test.comparators[0], v.test.ops[0]
+            isvar = lambda x: isinstance(x, ast.Name) and x.id == var
+            for cand, keep in ((v.body, v.orelse), (v.orelse, v.body)):
+                if not isvar(keep) or isvar(cand):
+                    continue
+                dv = ast.dump(cand)
+                takes_new_when_true = cand is v.body
+                later = (isinstance(op, (ast.Gt, ast.GtE)) and isvar(l) and ast.dump(r_) == dv) or (isinstance(op, (ast.Lt, ast.LtE)) and isvar(r_) and ast.dump(l) == dv)
+                earlier = (isinstance(op, (ast.Lt, ast.LtE)) and isvar(l) and ast.dump(r_) == dv) or (isinstance(op, (ast.Gt, ast.GtE)) and isvar(r_) and ast.dump(l) == dv)
+                if (takes_new_when_true and later) or (not takes_new_when_true and earlier):
+                    ok = True
         par = pm.get(a)
         if isinstance(par, ast.If) and a in par.body and isinstance(par.test, ast.Compare) and len(par.test.ops) == 1:
             l, r, op = par.test.left, par.test.comparators[0], par.test.ops[0]
